@@ -19,7 +19,8 @@ BUDGET = {'quick': 1400, 'thorough': 12000}
 TIME = {'quick': 60, 'thorough': 800}
 RULE = ('lookup: a FRESH interpreter per case (module defaults are read from the environment at import) under a '
         'generated os.environ (DEEP_<documented key> texts, DEEP_<unknown>, unrelated variables) x a generated code '
-        'dict (text, numbers, bools, None, lists, callables, foreign objects) over all documented keys, PLUGINS, unknown '
+        'dict (text, numbers, bools, None, lists, callables of every kind: def, lambda, bound method, classmethod, '
+        'staticmethod, functools.partial, class, instance with __call__, builtin function, builtin method, raising; foreign objects) over all documented keys, PLUGINS, unknown '
         'keys and names the object has of its own; ~12 lookups per interpreter, through ConfigService(custom) or through '
         'the real deep.start (APP_ROOT from code / DEEP_APP_ROOT / calculated from the calling file), plus is_app_frame / '
         'parse_short_name on generated paths and, in a third of the cases, LongPoll.start with the resolved POLL_TIMER '
@@ -71,8 +72,26 @@ def g_cval(rng, depth=0):
     if r < 0.82:
         return {'l': [{'s': rng.choice(['/a', '/b/c', 'x'])} for _ in range(rng.choice([0, 1, 2]))]}
     if r < 0.95 and depth == 0:
-        return {'call': g_cval(rng, 1)}
+        return g_callable(rng, g_cval(rng, 1))
     return {'o': 'object'}
+
+
+CALLABLE_KINDS = ['lambda', 'def', 'method', 'classmethod', 'static', 'partial', 'class', 'instance', 'builtin',
+                  'builtin_method', 'raise']
+
+
+def g_callable(rng, ret, may_raise=True):
+    """a callable of one of the kinds Python has, returning `ret` when called without arguments (may_raise=False:
+    the result matters to a use site — the kinds whose result the generator cannot choose are left out)"""
+    ck = rng.choice(CALLABLE_KINDS if may_raise else [c for c in CALLABLE_KINDS if c not in ('raise', 'builtin')])
+    if ck == 'builtin':
+        ret = {'s': 'utf-8'}                    # sys.getdefaultencoding
+    elif ck == 'builtin_method' and not (isinstance(ret, dict) and ('s' in ret or 'i' in ret or 'f' in ret or 'l' in ret)
+                                         and '{' not in str(ret.get('s', ''))):
+        ck = 'instance'
+    elif ck == 'raise':
+        ret = None
+    return {'call': ret, 'ck': ck}
 
 
 PY_MK = r'''
@@ -90,7 +109,47 @@ def mk(v):
     if 'l' in v:
         return [mk(x) for x in v['l']]
     if 'call' in v:
+        import functools
+        import sys
         r = mk(v['call'])
+        ck = v.get('ck', 'lambda')
+        if ck == 'def':
+            def f():
+                return r
+            return f
+        if ck in ('method', 'classmethod', 'static'):
+            class C:
+                def m(self):
+                    return r
+
+                @classmethod
+                def g(cls):
+                    return r
+
+                @staticmethod
+                def h():
+                    return r
+            return {'method': C().m, 'classmethod': C.g, 'static': C.h}[ck]
+        if ck == 'partial':
+            return functools.partial(lambda x: x, r)
+        if ck == 'class':
+            class K:
+                def __new__(cls):
+                    return r
+            return K
+        if ck == 'instance':
+            class I:
+                def __call__(self):
+                    return r
+            return I()
+        if ck == 'builtin':
+            return sys.getdefaultencoding
+        if ck == 'builtin_method':
+            return r.format if isinstance(r, str) else (r.copy if isinstance(r, list) else r.conjugate)
+        if ck == 'raise':
+            def boom():
+                raise ValueError('config callable failed')
+            return boom
         return lambda r=r: r
     return object()
 
@@ -267,9 +326,9 @@ def g_lookup(rng):
         if r < 0.3:
             if k == 'POLL_TIMER':
                 v = rng.choice([{'i': 1}, {'i': 10}, {'f': '0.05'}, {'s': '0.05'}, {'s': '3'}, None,
-                                {'call': {'s': '0.1'}}])
+                                g_callable(rng, {'s': '0.1'}, may_raise=False)])
             elif k == 'APP_ROOT':
-                v = rng.choice([{'s': '/app'}, {'s': '/opt/shared'}, {'s': ''}, {'call': {'s': '/app2'}}] +
+                v = rng.choice([{'s': '/app'}, {'s': '/opt/shared'}, {'s': ''}, g_callable(rng, {'s': '/app2'}, may_raise=False)] +
                                [{'s': d} for d in RAW_DIRS])
             elif k == 'PLUGINS':
                 v = {'l': []}
@@ -332,6 +391,11 @@ def corpus():
          'layout': ['root', 'pkg'], 'files': ['/a/x.py', '/srv/x/y.py', '$BASE/root/pkg/main.py'], 'timer': True,
          'none_config': False},
         {'kind': 'timer', 'interval': {'s': '0.02'}},
+        # callables of every kind Python has are called and their result used
+        {'kind': 'lookup', 'env': {}, 'names': ['K%d' % i for i in range(len(CALLABLE_KINDS))], 'start': False,
+         'custom': [['K%d' % i, {'call': ({'s': 'utf-8'} if ck == 'builtin' else None if ck == 'raise' else {'s': 'v%d' % i}),
+                                 'ck': ck}] for i, ck in enumerate(CALLABLE_KINDS)],
+         'layout': ['root', 'pkg'], 'files': ['/app/x.py'], 'timer': False, 'none_config': False},
         # APP_ROOT only from the environment, not in normal form, through deep.start: used as written
         {'kind': 'lookup', 'env': {'DEEP_APP_ROOT': '/srv/app/'}, 'custom': [], 'names': ['APP_ROOT'], 'start': True,
          'layout': ['root', 'pkg'], 'files': ['/srv/app/main.py', '/srv/app2/x.py', '/srv/application/other.py'],
@@ -521,7 +585,17 @@ def oracle_frame(case, obs):
 
 
 def called(v):
-    return v['call'] if isinstance(v, dict) and 'call' in v else v
+    """a callable value is called and its result used (an exception of the callable reaches the reader)"""
+    if isinstance(v, dict) and 'call' in v:
+        return {'raised': 'ValueError'} if v.get('ck') == 'raise' else v['call']
+    return v
+
+
+def model_cval(v):
+    """the model knows a callable by what it returns; a raising one returns the marker the comparison maps back"""
+    if isinstance(v, dict) and 'call' in v:
+        return {'call': {'o': 'raises'} if v.get('ck') == 'raise' else v['call']}
+    return v
 
 
 def norm(v):
@@ -665,7 +739,7 @@ def model_request(case, obs):
     px = obs['exec_prefix']
     custom = {}
     for kk, v in case['custom']:
-        custom[kk] = json.loads(px_sub(json.dumps(v), px)) if v is not None else None
+        custom[kk] = model_cval(json.loads(px_sub(json.dumps(v), px))) if v is not None else None
     req = {'kind': 'frame', 'custom': pairs(custom), 'env': pairs({a: px_sub(b, px) for a, b in case['env'].items()}),
            'px': px, 'files': [px_sub(f, px) for f in case['files']]}
     if k == 'lookup':
@@ -690,6 +764,8 @@ def compare(case, obs, resp):
             if isinstance(m, dict) and str(m.get('o', '')).startswith('own attribute'):
                 continue        # the object's own attribute: its value is outside the model (it is not the custom one:
                                 # checked by the oracle for names of OWN)
+            if m == {'o': 'raises'}:
+                m = {'raised': 'ValueError'}
             if norm(m) != norm(o):
                 d.append(f'{n}: model {m} vs implementation {o}')
     for f, m, o in zip(case['files'], resp['frames'], obs['frames']):
